@@ -49,3 +49,52 @@ pub fn keys() -> &'static KeySet {
         }
     })
 }
+
+
+/// Keys generated at run time (deterministically: fixed creation time, seeded RNG) until their
+/// 64-bit key ids have a shape the four fixture keys lack: a leading zero hex digit, a leading
+/// zero byte, and only-decimal digits in the first byte. A key id is 16 hex digits whatever its
+/// value.
+pub struct GenKey {
+    pub what: &'static str,
+    pub signer: Signer,
+    pub verifier: Verifier,
+    pub key_id: String,
+}
+
+pub fn generated_keys() -> &'static Vec<GenKey> {
+    static K: OnceLock<Vec<GenKey>> = OnceLock::new();
+    K.get_or_init(|| {
+        use pgp::composed::{KeyType, SecretKeyParamsBuilder};
+        use pgp::types::{PublicKeyTrait, SecretKeyTrait};
+        use pgp::ArmorOptions;
+        use rand::SeedableRng;
+        let created = chrono::DateTime::<chrono::Utc>::from_timestamp(1_500_000_000, 0).expect("fixed instant");
+        let wanted: [(&'static str, fn(&str) -> bool); 2] = [("key id with a leading zero digit", |id| id.starts_with('0') && !id.starts_with("00")), ("key id with a leading zero byte", |id| id.starts_with("00"))];
+        let mut out: Vec<GenKey> = vec![];
+        let mut rng = rand::rngs::StdRng::seed_from_u64(0x5eed_c10);
+        for _ in 0..20_000 {
+            if out.len() == wanted.len() {
+                break;
+            }
+            let params = SecretKeyParamsBuilder::default()
+                .key_type(KeyType::EdDSALegacy)
+                .can_sign(true)
+                .can_certify(true)
+                .primary_user_id("generated <generated@example.org>".into())
+                .created_at(created)
+                .build()
+                .expect("key parameters");
+            let Ok(sk) = params.generate(&mut rng) else { continue };
+            let Ok(ssk) = sk.sign(&mut rng, String::new) else { continue };
+            let id = hex::encode(ssk.key_id().as_ref());
+            let Some((what, _)) = wanted.iter().find(|(w, f)| f(&id) && !out.iter().any(|g| g.what == *w)) else { continue };
+            let Ok(sec) = ssk.to_armored_string(ArmorOptions::default()) else { continue };
+            let Ok(spk) = ssk.public_key().sign(&mut rng, &ssk, String::new) else { continue };
+            let Ok(public) = spk.to_armored_string(ArmorOptions::default()) else { continue };
+            let (Ok(signer), Ok(verifier)) = (Signer::load_from_asc_bytes(sec.as_bytes()), Verifier::load_from_asc_bytes(public.as_bytes())) else { continue };
+            out.push(GenKey { what, signer, verifier, key_id: id });
+        }
+        out
+    })
+}
